@@ -313,6 +313,10 @@ def run_cli(rep, tier, seed, items, cases):
             rep.sample({"cli_first_line": keep[0][2].replace(root, "<scratch>"), "kind": keep[0][0][0], "role": keep[0][0][5]})
     finally:
         shutil.rmtree(root, ignore_errors=True)
+        try:
+            os.rmdir(base)          # only if nothing else lives there
+        except OSError:
+            pass
     return terms, keep
 
 
